@@ -5,6 +5,10 @@ root = os.path.dirname(os.path.dirname(os.path.abspath(__file__)))
 
 CHECKS = {
  # id: (technique, level text, level note, design_ref)
+ "C01": ("reference-model monitor: three real implementations (kinetics functions, exported ODE RHS, one Euler step of the freshly compiled engine) compared with an independent SI rate law on generated heterogeneous systems",
+         "Runs the real code on thousands of generated systems (every nesting level in its own unit system; grids with all boundary mixes, graphs with unequal volumes; orders 0..4, per-environment constants with 'default' fallbacks) and compares every (species, cell) entry with an independent implementation of the stated law under a rounding bound derived from the sum of |terms|. Held = all three implementations agreed with the reference on every entry of every executed system.",
+         "Trusted: vf/ref.py rate law, vf/si.py. Bounded: finite non-negative states/constants within ~12 decades; simple graphs (no parallel edges) for the Python functions.",
+         "DESIGN.md 2/C01"),
  "C06": ("reference-model monitor (exact rational SI table) + icontract postconditions on the real conversion functions",
          "Every factor the library can produce per base unit pair is enumerated (exhaustive over symbol pairs x exponents -4..4, all derived symbols) and compared with exact rationals; random system triples exercise every target form, round trips, composition, identity and cross-dimension rejection, while postconditions on compute_conversion_factor/convert_unitvalue observe every internal call. Held = no disagreement on the executions listed in the evidence.",
          "Trusted: vf/si.py (SI definitions as Fractions), CPython float->Fraction exactness. Bounded: exponents in [-4,4], magnitudes within 1e+-8.",
